@@ -179,6 +179,12 @@ func (x *executor) runOps(task int, ops []Op) {
 			// and addresses it is walked (reach) but not compared.
 			key = ""
 		}
+		if op.Kind == "ensureap" && in.sharesTypes {
+			// the mutator was applied to the root's own tree only (its type objects are
+			// other schemas' too): what it reports is not what the reference, which went
+			// into the types as well, reports
+			key = ""
+		}
 		if op.PanicAt > 0 && panicOK(op.Kind) {
 			_, fired := simrt.Disarm()
 			if fired >= 0 {
@@ -287,6 +293,9 @@ func Execute(w *World, tape *simrt.Tape, gold []*Golden, onFatal func(int, strin
 	for i := range w.Objects {
 		if d := w.Objects[i].ShareWith - 1; d >= 0 && d < i {
 			x.insts[i].donor = x.insts[d]
+			if !w.Objects[i].RulesOnly {
+				x.insts[i].sharesTypes, x.insts[d].sharesTypes = true, true
+			}
 		}
 	}
 	// rule objects shared between tasks are created before the tasks start
